@@ -18,14 +18,14 @@
 (* floats of the window stay integers: Measure returns twice the measure,  *)
 (* Violated doubles the bounds.  FAR is a symbolic exterior point (the     *)
 (* harness concretises it as the extreme value of the Go type); it is      *)
-(* outside every bound the suite generates (|bound| <= 10^6).              *)
+(* outside every bound the suite generates (|bound| <= 5*10^8).              *)
 (***************************************************************************)
 EXTENDS Integers, Sequences, FiniteSets
 
 CONSTANTS W,        \* bounds are drawn from -W..W
           Pinned    \* BOOLEAN: mechanism of the pinned tree (TRUE) or of the repaired tree (FALSE)
 
-FAR == 1000000000
+FAR == 1050000000      \* beyond every bound (|bound| <= 5*10^8: 4 * bound and 2 * FAR both fit TLC's 32-bit integers)
 IntervalRules == {"to", "ge", "le", "oto", "gt", "lt", "eq", "noeq"}
 TwoBound == {"to", "oto"}
 Classes == {"string", "int", "uint", "float", "slice"}
